@@ -58,6 +58,8 @@ const (
 	fGenCatRanges     = "C05-general-category-first-last-ranges"
 	fMarkBaseCache    = "C05-mark-base-cache-not-reset"
 	fOldUyghur        = "C05-old-uyghur-direction"
+	fInvisible        = "C05-invisible-glyph-ignored"
+	fFigureSpace      = "C05-figure-space-last-digit"
 )
 
 // unconditional (skew / loader / unspecified) classes
@@ -393,6 +395,36 @@ func triage(fe *fontEntry, c *Case, got portResult, want refResult) class {
 	if n := 32*c.Length + 256; len(port) > n || len(ref) > n {
 		return class{sOpBudget, true}
 	}
+	// finding: with Buffer.Invisible set, hideDefaultIgnorables deletes the default ignorables
+	// (as if the font had no space glyph) instead of replacing them by the invisible glyph.
+	// Precondition: invisible glyph set, neither PRESERVE nor REMOVE flag, a default ignorable in
+	// the item. Weaker predicate: the reference's glyphs minus the invisible glyph are the port's.
+	if c.Invisible != 0 && c.Flags&12 == 0 && ev.Known(fInvisible) {
+		for _, r := range c.item() {
+			if defaultIgnorable(r) {
+				var rest []uint32
+				for _, g := range ref {
+					if g.ID != uint32(c.Invisible) {
+						rest = append(rest, g.ID)
+					}
+				}
+				var mine []uint32
+				for _, g := range port {
+					if g.ID != uint32(c.Invisible) {
+						mine = append(mine, g.ID)
+					}
+				}
+				same := len(rest) == len(mine)
+				for i := 0; same && i < len(rest); i++ {
+					same = rest[i] == mine[i]
+				}
+				if same {
+					return class{fInvisible, true}
+				}
+				break
+			}
+		}
+	}
 	// skew: Arabic fallback shaping synthesised from the cmap (script Arab, no Arabic GSUB
 	// features). The port has three ligature lookups (3-component, 2-component, SHADDA mark
 	// ligatures: arabicLigatureMarkTable, generated by the corpus module's port of
@@ -559,6 +591,16 @@ func triage(fe *fontEntry, c *Case, got portResult, want refResult) class {
 			// blwm=0 on [1,2): the port attaches the mark to U+0A15. Precondition: a ranged user
 			// feature and mark attachment lookups; only offsets of GDEF mark glyphs differ.
 			add(sMarkBaseMask, fOffset)
+		}
+	}
+	// finding: the fallback advance of U+2007 FIGURE SPACE (font without that glyph) is taken from
+	// the last digit the font has instead of the first (missing break in fallbackSpaces).
+	if _, has := fe.face.NominalGlyph(0x2007); !has && ev.Known(fFigureSpace) {
+		for _, r := range c.item() {
+			if r == 0x2007 {
+				add(fFigureSpace, fAdvance|fOffset)
+				break
+			}
 		}
 	}
 	// finding: VORG vertical origins of a variable font are not varied (VVAR vertical-origin
